@@ -117,6 +117,19 @@ def stream_tables(ctx, rng, n):
         link = rng.random() < 0.5
         use_lines = [".word 177777 & (%s)" % e_text(u) for u in uses]
         def_lines = ["%s = %s" % (nm, e_text(e)) for nm, e in defs]
+        # an included file that emits nothing (the file goes on after the include returns): its place among the
+        # uses is fixed, the definitions move around it
+        root, scratch = "/w", None
+        if rng.random() < 0.4:
+            scratch = impl.scratch_dir()
+            root = scratch
+            ninc = rng.randint(1, 2)
+            with open(os.path.join(scratch, "inc.mac"), "w", encoding="utf-8") as f:
+                # (a file included twice must not define anything)
+                f.write(rng.choice(["; nothing\n", ".even\n"] + (["incz%d = 5\n" % it, "incq%d == 7\n; exported\n" % it] if ninc == 1 else [])))
+            for _ in range(ninc):
+                use_lines.insert(rng.randrange(len(use_lines) + 1), '.include "inc.mac"')
+            ctx.count("tables with an include between the uses")
         variants = []
         for v in range(5):
             if v == 0:
@@ -130,12 +143,15 @@ def stream_tables(ctx, rng, n):
                 for dl in ds:
                     lines.insert(rng.randrange(len(lines) + 1), dl)
             text = (".link 2000\n" if link else "") + "\n".join(lines) + "\n"
-            files = [("/w/t.mac", text)]
+            files = [(root + "/t.mac", text)]
             if ext:
                 etext = "".join("%s == %s\n" % (nm, e_text(e)) for nm, e in ext)
-                files = [("/w/e.mac", (".link 2000\n" if link else "") + etext), ("/w/t.mac", "\n".join(lines) + "\n")] if v % 2 == 0 or link else files + [("/w/e.mac", etext)]
+                files = [(root + "/e.mac", (".link 2000\n" if link else "") + etext), (root + "/t.mac", "\n".join(lines) + "\n")] if v % 2 == 0 or link else files + [(root + "/e.mac", etext)]
             variants.append((files, None))
         results = [impl.assemble(f) for f, _ in variants]
+        if scratch:
+            impl.drop_scratch(scratch)
+            variants = [([("/w/" + os.path.basename(p), t) for p, t in f], x) for f, x in variants]
         ctx.case(json.dumps(variants[0][0]), nontrivial=nd >= 2)
         ctx.count("tables")
         ctx.count("tables-" + ("link-first" if link else "no-link"))
